@@ -112,6 +112,8 @@ class Conn:
             item = await self.inbox.get()
             if item is DISCONNECT:
                 raise self._falcon.WebSocketDisconnected()
+            if isinstance(item, tuple) and item and item[0] == "RAISE":
+                raise item[1]
             return item
 
         async def ws_close(code=1000):
